@@ -15,14 +15,21 @@ TRUST = ("Trusted: Coq 8.16.1 kernel (coqc, vm_compute; no native_compute); no a
 CHECKS = {
     "C07": dict(
         level="proof",
-        text="Layout/shard/read-back/restore theorems proved in Coq for all tensor lists and options over the "
-             "regenerated _align_offset/_validate_write_options and a hand model of the offset loop, both shard "
-             "functions, the byte-file image and save()'s try/finally; the model is tied to the code by differential "
-             "execution of real save/load over the option grid (observed files and ranges are evaluated against the "
-             "model inside Coq) and the property oracle (save->load->compare) supplies replays.",
-        note=TRUST + "Modelled, not verified: tensor byte production (C04), the file system, onnx.save/load, the "
-             "safetensors writer, shard file naming (checked by the oracle only).",
-        technique="Coq proof over translated+hand model; vm_compute correspondence with real save/load",
+        text="Layout/shard/read-back/restore theorems proved in Coq for all tensor lists and options. The code of "
+             "_align_offset, _validate_write_options, _compute_external_data_info, the offset loop of "
+             "convert_tensors_to_external, external_data._shard_tensors, _safetensors._shard_tensors and the threshold "
+             "comparison of unload_from_model is re-translated from the source on every run (tools/translate.py, "
+             "tools/translate_loops.py, fail closed; the statements around the offset loop are pinned) and proved equal, "
+             "for every input, to the model functions the theorems are stated over (C07_source_*). The byte-file image, "
+             "shard file names and save()'s try/finally are hand models; everything is tied to the running code by "
+             "differential execution of real save/load over the option grid (observed files, ranges, shard groupings "
+             "and file bytes are evaluated against the model inside Coq); the property oracle (save->load->compare, "
+             "range checks) supplies replays.",
+        note=TRUST + "Translation abstracts a tensor to its nbytes and drops _ExternalDataInfo.name; logging calls are "
+             "skipped. Modelled, not verified: tensor byte production (C04), the file system, onnx.save/load, the "
+             "safetensors writer's file format, the writer threads (C09).",
+        technique="Coq proof over a model regenerated from the source loops (ast->Gallina, equivalence theorems) + hand "
+                  "model of the file image; vm_compute correspondence with real save/load",
         design_ref="§6 C07"),
     "C01": dict(
         level="proof",
